@@ -16,6 +16,7 @@ class _(Contract):
     always a well-formed variable: the plain variable (same name and mark) when no subscript is relevant."""
     params = {"variable": "node", "graph": "graph"}
     allowed_raises = ("NetworkXError",)
+    returns = "node"
 
     def _T(self, ex, a):
         L, g = ex.L, a.graph
@@ -99,3 +100,67 @@ class _(Contract):
             "cf.complete": L.Implies(cfv, L.forall(1, lambda w: L.Implies(L.And(g.N(w), AncOut(w, b(v))),
                                                                         L.exists(1, lambda r: L.And(res.has(r), b(r) == w))))),
         }
+
+
+@contract(f"{AU}._minimize_set", props=["C19"])
+class _(Contract):
+    """||Y*|| = { ||Y_x|| : Y_x in Y* }: every member of the result is the minimisation of some member of the input (same base, a
+    subset of its subscripts, unchanged when not counterfactual) and every member of the input has its minimisation in the result."""
+    params = {"graph": "graph", "variables": "nodeset"}
+    allowed_raises = ("NetworkXError",)
+
+    def raises(self, ex, a):
+        L, g = ex.L, a.graph
+        b, ivs, plain = L.var_algebra()
+        return {"NetworkXError": L.exists(1, lambda v: L.And(a.variables.has(v), L.is_cf(v), L.Not(g.N(b(v)))))}
+
+    def post(self, ex, a, res):
+        L = ex.L
+        if not isinstance(res, VSet):
+            return {"type": L.F()}
+        b, ivs, plain = L.var_algebra()
+        S = a.variables
+        shrinks = _is_minimisation(ex, a.graph)
+        return {"sound": L.forall(1, lambda r: L.Implies(res.has(r), L.exists(1, lambda v: L.And(S.has(v), shrinks(v, r))))),
+                "complete": L.forall(1, lambda v: L.Implies(S.has(v), L.exists(1, lambda r: L.And(res.has(r), shrinks(v, r)))))}
+
+
+def _is_minimisation(ex, g):
+    """(v, r) -> r is ||v|| in g: same base, exactly the relevant subscripts, the plain variable itself when v is not counterfactual,
+    well-formed (counterfactual iff it has a subscript)."""
+    L = ex.L
+    b, ivs, plain = L.var_algebra()
+
+    def keep(v):
+        X = lambda q: L.exists(1, lambda i: L.And(ivs(v, i), b(i) == q))
+        ex.binders.append(v)       # the closure is indexed by v (one symbol for all members of the input)
+        try:
+            C = ex.closure(lambda p, q: L.And(g.D(p, q), L.Not(X(q))), "rtcDx")
+        finally:
+            ex.binders.pop()
+        return lambda i: L.And(ivs(v, i), C(b(i), b(v)))
+    return lambda v, r: L.And(b(r) == b(v), L.Implies(L.is_cf(v), L.forall(1, lambda i: ivs(r, i) == keep(v)(i))),
+                              L.Implies(L.Not(L.is_cf(v)), r == v), L.is_cf(r) == L.exists(1, lambda i: ivs(r, i)))
+
+
+@contract(f"{API}.minimize_event", props=["C19"])
+class _(Contract):
+    """The event with every variable minimised and every value kept: (r, x) is in the result iff r = ||v|| for some (v, x) of the input."""
+    params = {"event": "pairs", "graph": "graph"}
+    allowed_raises = ("NetworkXError",)
+
+    def raises(self, ex, a):
+        L, g = ex.L, a.graph
+        b, ivs, plain = L.var_algebra()
+        return {"NetworkXError": L.exists(2, lambda v, x: L.And(a.event.has(v, x), L.is_cf(v), L.Not(g.N(b(v)))))}
+
+    def post(self, ex, a, res):
+        L = ex.L
+        if getattr(res, "concrete_empty", False):
+            res = VSet(lambda p, q: L.F(), arity=2)
+        if not isinstance(res, VSet) or res.arity != 2:
+            return {"type": L.F()}
+        S = a.event
+        shrinks = _is_minimisation(ex, a.graph)
+        return {"sound": L.forall(2, lambda r, x: L.Implies(res.has(r, x), L.exists(1, lambda v: L.And(S.has(v, x), shrinks(v, r))))),
+                "complete": L.forall(2, lambda v, x: L.Implies(S.has(v, x), L.exists(1, lambda r: L.And(res.has(r, x), shrinks(v, r)))))}
